@@ -602,8 +602,58 @@ func extIPMaskSize(fr *frame, args []value) value {
 	return tuple{fromTerm(total, types.Typ[types.Int]), len(m) * 8}
 }
 
+// ---- timers: time.AfterFunc / (*time.Timer).Stop ----
+//
+// A timer is an environment goroutine that, at a moment chosen by the scheduler, either fires
+// (calls f) or never does; Stop prevents a firing that has not started.
+
+type timerState struct {
+	stopped bool
+	fired   bool
+}
+
+func extAfterFunc(fr *frame, args []value) value {
+	in := fr.i
+	f := args[1]
+	tt := fr.fn.Signature.Results().At(0).Type() // *time.Timer
+	cell := zero(deref(tt))
+	p := &cell
+	st := &timerState{}
+	if in.timers == nil {
+		in.timers = make(map[*value]*timerState)
+	}
+	in.timers[p] = st
+	body := &nativeFn{name: "timer", fn: func(fr2 *frame, _ []value) value {
+		if in.path.choice(in, 2, "timer") == 1 {
+			return nil // never fires within the horizon of this path
+		}
+		if st.stopped {
+			return nil
+		}
+		st.fired = true
+		call(in, fr2, token.NoPos, f, nil)
+		return nil
+	}}
+	in.spawn(fr, body, nil, token.NoPos)
+	return p
+}
+
+func extTimerStop(fr *frame, args []value) value {
+	in := fr.i
+	p, _ := args[0].(*value)
+	st := in.timers[p]
+	if st == nil {
+		return false
+	}
+	was := !st.stopped && !st.fired
+	st.stopped = true
+	return was
+}
+
 func init() {
 	for k, v := range map[string]externalFn{
+		"time.AfterFunc":                   extAfterFunc,
+		"(*time.Timer).Stop":               extTimerStop,
 		"net.CIDRMask":                     extCIDRMask,
 		"(net.IPMask).Size":                extIPMaskSize,
 		"internal/bytealg.IndexByte":       extIndexByte,
